@@ -52,13 +52,13 @@ def methods : List (String × String) := [
 
 /-- ⟨mid, option, named, write, optedOut, observed⟩ -/
 def options : List OptEntry := [
-  ⟨0, .collation, true, true, false, .accepted⟩,  -- BulkOperationBuilder.add_delete
+  ⟨0, .collation, true, true, false, .raisesNotImplemented⟩,  -- BulkOperationBuilder.add_delete
   ⟨0, .collation, true, true, true, .accepted⟩,  -- BulkOperationBuilder.add_delete
   ⟨0, .hint, true, true, false, .raisesNotImplemented⟩,  -- BulkOperationBuilder.add_delete
-  ⟨1, .collation, true, true, false, .accepted⟩,  -- BulkOperationBuilder.add_replace
+  ⟨1, .collation, true, true, false, .raisesNotImplemented⟩,  -- BulkOperationBuilder.add_replace
   ⟨1, .collation, true, true, true, .accepted⟩,  -- BulkOperationBuilder.add_replace
   ⟨1, .hint, true, true, false, .raisesNotImplemented⟩,  -- BulkOperationBuilder.add_replace
-  ⟨2, .collation, true, true, false, .accepted⟩,  -- BulkOperationBuilder.add_update
+  ⟨2, .collation, true, true, false, .raisesNotImplemented⟩,  -- BulkOperationBuilder.add_update
   ⟨2, .collation, true, true, true, .accepted⟩,  -- BulkOperationBuilder.add_update
   ⟨2, .arrayFilters, true, true, false, .raisesNotImplemented⟩,  -- BulkOperationBuilder.add_update
   ⟨2, .arrayFilters, true, true, true, .accepted⟩,  -- BulkOperationBuilder.add_update
@@ -77,13 +77,13 @@ def options : List OptEntry := [
   ⟨6, .hint, true, true, false, .raisesNotImplemented⟩,  -- BulkWriteOperation.update
   ⟨7, .hint, true, true, false, .raisesNotImplemented⟩,  -- BulkWriteOperation.update_one
   ⟨8, .session, true, false, false, .raisesNotImplemented⟩,  -- Collection.aggregate
-  ⟨8, .session, true, false, true, .raisesNotImplemented⟩,  -- Collection.aggregate
-  ⟨8, .collation, false, false, false, .accepted⟩,  -- Collection.aggregate
-  ⟨8, .collation, false, false, true, .accepted⟩,  -- Collection.aggregate
-  ⟨8, .arrayFilters, false, false, false, .accepted⟩,  -- Collection.aggregate
-  ⟨8, .arrayFilters, false, false, true, .accepted⟩,  -- Collection.aggregate
-  ⟨8, .let_, false, false, false, .accepted⟩,  -- Collection.aggregate
-  ⟨8, .let_, false, false, true, .accepted⟩,  -- Collection.aggregate
+  ⟨8, .session, true, false, true, .accepted⟩,  -- Collection.aggregate
+  ⟨8, .collation, true, false, false, .raisesNotImplemented⟩,  -- Collection.aggregate
+  ⟨8, .collation, true, false, true, .accepted⟩,  -- Collection.aggregate
+  ⟨8, .arrayFilters, true, false, false, .raisesNotImplemented⟩,  -- Collection.aggregate
+  ⟨8, .arrayFilters, true, false, true, .accepted⟩,  -- Collection.aggregate
+  ⟨8, .let_, true, false, false, .raisesNotImplemented⟩,  -- Collection.aggregate
+  ⟨8, .let_, true, false, true, .accepted⟩,  -- Collection.aggregate
   ⟨8, .hint, false, false, false, .accepted⟩,  -- Collection.aggregate
   ⟨9, .session, true, true, false, .raisesNotImplemented⟩,  -- Collection.bulk_write
   ⟨9, .session, true, true, true, .accepted⟩,  -- Collection.bulk_write
@@ -98,11 +98,11 @@ def options : List OptEntry := [
   ⟨10, .hint, false, false, false, .accepted⟩,  -- Collection.count_documents
   ⟨11, .session, true, false, false, .raisesNotImplemented⟩,  -- Collection.create_index
   ⟨11, .session, true, false, true, .accepted⟩,  -- Collection.create_index
-  ⟨11, .collation, false, false, false, .accepted⟩,  -- Collection.create_index
+  ⟨11, .collation, false, false, false, .raisesNotImplemented⟩,  -- Collection.create_index
   ⟨11, .collation, false, false, true, .accepted⟩,  -- Collection.create_index
-  ⟨11, .arrayFilters, false, false, false, .accepted⟩,  -- Collection.create_index
+  ⟨11, .arrayFilters, false, false, false, .raisesNotImplemented⟩,  -- Collection.create_index
   ⟨11, .arrayFilters, false, false, true, .accepted⟩,  -- Collection.create_index
-  ⟨11, .let_, false, false, false, .accepted⟩,  -- Collection.create_index
+  ⟨11, .let_, false, false, false, .raisesNotImplemented⟩,  -- Collection.create_index
   ⟨11, .let_, false, false, true, .accepted⟩,  -- Collection.create_index
   ⟨11, .hint, false, false, false, .accepted⟩,  -- Collection.create_index
   ⟨12, .session, true, false, false, .raisesNotImplemented⟩,  -- Collection.create_indexes
@@ -134,7 +134,7 @@ def options : List OptEntry := [
   ⟨19, .let_, false, false, false, .raisesOther⟩,  -- Collection.estimated_document_count
   ⟨19, .let_, false, false, true, .raisesOther⟩,  -- Collection.estimated_document_count
   ⟨19, .hint, false, false, false, .accepted⟩,  -- Collection.estimated_document_count
-  ⟨20, .session, true, false, false, .accepted⟩,  -- Collection.find
+  ⟨20, .session, true, false, false, .raisesNotImplemented⟩,  -- Collection.find
   ⟨20, .session, true, false, true, .accepted⟩,  -- Collection.find
   ⟨20, .collation, true, false, false, .accepted⟩,  -- Collection.find
   ⟨20, .collation, true, false, true, .accepted⟩,  -- Collection.find
@@ -143,9 +143,9 @@ def options : List OptEntry := [
   ⟨20, .let_, false, false, false, .raisesOther⟩,  -- Collection.find
   ⟨20, .let_, false, false, true, .raisesOther⟩,  -- Collection.find
   ⟨20, .hint, false, false, false, .raisesOther⟩,  -- Collection.find
-  ⟨21, .session, false, false, false, .accepted⟩,  -- Collection.find_one
+  ⟨21, .session, false, false, false, .raisesNotImplemented⟩,  -- Collection.find_one
   ⟨21, .session, false, false, true, .accepted⟩,  -- Collection.find_one
-  ⟨21, .collation, false, false, false, .accepted⟩,  -- Collection.find_one
+  ⟨21, .collation, false, false, false, .raisesNotImplemented⟩,  -- Collection.find_one
   ⟨21, .collation, false, false, true, .accepted⟩,  -- Collection.find_one
   ⟨21, .arrayFilters, false, false, false, .raisesOther⟩,  -- Collection.find_one
   ⟨21, .arrayFilters, false, false, true, .raisesOther⟩,  -- Collection.find_one
@@ -154,31 +154,31 @@ def options : List OptEntry := [
   ⟨21, .hint, false, false, false, .raisesOther⟩,  -- Collection.find_one
   ⟨22, .session, false, true, false, .raisesNotImplemented⟩,  -- Collection.find_one_and_delete
   ⟨22, .session, false, true, true, .accepted⟩,  -- Collection.find_one_and_delete
-  ⟨22, .collation, false, true, false, .accepted⟩,  -- Collection.find_one_and_delete
+  ⟨22, .collation, false, true, false, .raisesNotImplemented⟩,  -- Collection.find_one_and_delete
   ⟨22, .collation, false, true, true, .accepted⟩,  -- Collection.find_one_and_delete
-  ⟨22, .arrayFilters, false, true, false, .accepted⟩,  -- Collection.find_one_and_delete
+  ⟨22, .arrayFilters, false, true, false, .raisesNotImplemented⟩,  -- Collection.find_one_and_delete
   ⟨22, .arrayFilters, false, true, true, .accepted⟩,  -- Collection.find_one_and_delete
-  ⟨22, .let_, false, true, false, .accepted⟩,  -- Collection.find_one_and_delete
+  ⟨22, .let_, false, true, false, .raisesNotImplemented⟩,  -- Collection.find_one_and_delete
   ⟨22, .let_, false, true, true, .accepted⟩,  -- Collection.find_one_and_delete
-  ⟨22, .hint, false, true, false, .accepted⟩,  -- Collection.find_one_and_delete
+  ⟨22, .hint, false, true, false, .raisesNotImplemented⟩,  -- Collection.find_one_and_delete
   ⟨23, .session, false, true, false, .raisesNotImplemented⟩,  -- Collection.find_one_and_replace
   ⟨23, .session, false, true, true, .accepted⟩,  -- Collection.find_one_and_replace
-  ⟨23, .collation, false, true, false, .accepted⟩,  -- Collection.find_one_and_replace
+  ⟨23, .collation, false, true, false, .raisesNotImplemented⟩,  -- Collection.find_one_and_replace
   ⟨23, .collation, false, true, true, .accepted⟩,  -- Collection.find_one_and_replace
-  ⟨23, .arrayFilters, false, true, false, .accepted⟩,  -- Collection.find_one_and_replace
+  ⟨23, .arrayFilters, false, true, false, .raisesNotImplemented⟩,  -- Collection.find_one_and_replace
   ⟨23, .arrayFilters, false, true, true, .accepted⟩,  -- Collection.find_one_and_replace
-  ⟨23, .let_, false, true, false, .accepted⟩,  -- Collection.find_one_and_replace
+  ⟨23, .let_, false, true, false, .raisesNotImplemented⟩,  -- Collection.find_one_and_replace
   ⟨23, .let_, false, true, true, .accepted⟩,  -- Collection.find_one_and_replace
-  ⟨23, .hint, false, true, false, .accepted⟩,  -- Collection.find_one_and_replace
+  ⟨23, .hint, false, true, false, .raisesNotImplemented⟩,  -- Collection.find_one_and_replace
   ⟨24, .session, false, true, false, .raisesNotImplemented⟩,  -- Collection.find_one_and_update
   ⟨24, .session, false, true, true, .accepted⟩,  -- Collection.find_one_and_update
-  ⟨24, .collation, false, true, false, .accepted⟩,  -- Collection.find_one_and_update
+  ⟨24, .collation, false, true, false, .raisesNotImplemented⟩,  -- Collection.find_one_and_update
   ⟨24, .collation, false, true, true, .accepted⟩,  -- Collection.find_one_and_update
-  ⟨24, .arrayFilters, false, true, false, .accepted⟩,  -- Collection.find_one_and_update
+  ⟨24, .arrayFilters, false, true, false, .raisesNotImplemented⟩,  -- Collection.find_one_and_update
   ⟨24, .arrayFilters, false, true, true, .accepted⟩,  -- Collection.find_one_and_update
-  ⟨24, .let_, false, true, false, .accepted⟩,  -- Collection.find_one_and_update
+  ⟨24, .let_, false, true, false, .raisesNotImplemented⟩,  -- Collection.find_one_and_update
   ⟨24, .let_, false, true, true, .accepted⟩,  -- Collection.find_one_and_update
-  ⟨24, .hint, false, true, false, .accepted⟩,  -- Collection.find_one_and_update
+  ⟨24, .hint, false, true, false, .raisesNotImplemented⟩,  -- Collection.find_one_and_update
   ⟨25, .session, true, false, false, .raisesNotImplemented⟩,  -- Collection.index_information
   ⟨25, .session, true, false, true, .accepted⟩,  -- Collection.index_information
   ⟨26, .session, true, false, false, .raisesNotImplemented⟩,  -- Collection.insert_many
@@ -219,37 +219,34 @@ def options : List OptEntry := [
   ⟨32, .hint, true, true, false, .raisesNotImplemented⟩,  -- Collection.update_one
   ⟨33, .session, true, false, false, .raisesNotImplemented⟩,  -- Cursor.distinct
   ⟨33, .session, true, false, true, .accepted⟩,  -- Cursor.distinct
-  ⟨34, .session, false, false, false, .accepted⟩,  -- Database.command
+  ⟨34, .session, false, false, false, .raisesNotImplemented⟩,  -- Database.command
   ⟨34, .session, false, false, true, .accepted⟩,  -- Database.command
-  ⟨34, .collation, false, false, false, .accepted⟩,  -- Database.command
+  ⟨34, .collation, false, false, false, .raisesNotImplemented⟩,  -- Database.command
   ⟨34, .collation, false, false, true, .accepted⟩,  -- Database.command
-  ⟨34, .arrayFilters, false, false, false, .accepted⟩,  -- Database.command
+  ⟨34, .arrayFilters, false, false, false, .raisesNotImplemented⟩,  -- Database.command
   ⟨34, .arrayFilters, false, false, true, .accepted⟩,  -- Database.command
-  ⟨34, .let_, false, false, false, .accepted⟩,  -- Database.command
+  ⟨34, .let_, false, false, false, .raisesNotImplemented⟩,  -- Database.command
   ⟨34, .let_, false, false, true, .accepted⟩,  -- Database.command
   ⟨34, .hint, false, false, false, .accepted⟩,  -- Database.command
   ⟨35, .session, false, false, false, .raisesNotImplemented⟩,  -- Database.create_collection
-  ⟨35, .session, false, false, true, .raisesNotImplemented⟩,  -- Database.create_collection
+  ⟨35, .session, false, false, true, .accepted⟩,  -- Database.create_collection
   ⟨35, .collation, false, false, false, .raisesNotImplemented⟩,  -- Database.create_collection
-  ⟨35, .collation, false, false, true, .raisesNotImplemented⟩,  -- Database.create_collection
+  ⟨35, .collation, false, false, true, .accepted⟩,  -- Database.create_collection
   ⟨35, .arrayFilters, false, false, false, .raisesNotImplemented⟩,  -- Database.create_collection
-  ⟨35, .arrayFilters, false, false, true, .raisesNotImplemented⟩,  -- Database.create_collection
+  ⟨35, .arrayFilters, false, false, true, .accepted⟩,  -- Database.create_collection
   ⟨35, .let_, false, false, false, .raisesNotImplemented⟩,  -- Database.create_collection
-  ⟨35, .let_, false, false, true, .raisesNotImplemented⟩,  -- Database.create_collection
+  ⟨35, .let_, false, false, true, .accepted⟩,  -- Database.create_collection
   ⟨35, .hint, false, false, false, .raisesNotImplemented⟩,  -- Database.create_collection
   ⟨36, .session, true, false, false, .raisesNotImplemented⟩,  -- Database.dereference
-  ⟨36, .session, true, false, true, .raisesNotImplemented⟩,  -- Database.dereference
+  ⟨36, .session, true, false, true, .accepted⟩,  -- Database.dereference
   ⟨37, .session, true, false, false, .raisesNotImplemented⟩,  -- Database.drop_collection
-  ⟨37, .session, true, false, true, .raisesNotImplemented⟩,  -- Database.drop_collection
+  ⟨37, .session, true, false, true, .accepted⟩,  -- Database.drop_collection
   ⟨38, .session, true, false, false, .raisesNotImplemented⟩,  -- Database.list_collection_names
-  ⟨38, .session, true, false, true, .raisesNotImplemented⟩   -- Database.list_collection_names
+  ⟨38, .session, true, false, true, .accepted⟩   -- Database.list_collection_names
   ]
 
-/-- known findings: options dropped silently (no opt-out given): BulkOperationBuilder.add_delete(collation), BulkOperationBuilder.add_replace(collation), BulkOperationBuilder.add_update(collation), Collection.aggregate(array_filters), Collection.aggregate(collation), Collection.aggregate(let), Collection.create_index(array_filters), Collection.create_index(collation), Collection.create_index(let), Collection.find(collation), Collection.find(session), Collection.find_one(collation), Collection.find_one(session), Collection.find_one_and_delete(array_filters), Collection.find_one_and_delete(collation), Collection.find_one_and_delete(hint), Collection.find_one_and_delete(let), Collection.find_one_and_replace(array_filters), Collection.find_one_and_replace(collation), Collection.find_one_and_replace(hint), Collection.find_one_and_replace(let), Collection.find_one_and_update(array_filters), Collection.find_one_and_update(collation), Collection.find_one_and_update(hint), Collection.find_one_and_update(let), Database.command(array_filters), Database.command(collation), Database.command(let), Database.command(session) -/
-def knownSilent : List (Nat × Opt) := [(0, .collation), (1, .collation), (2, .collation), (8, .arrayFilters), (8, .collation), (8, .let_), (11, .arrayFilters), (11, .collation), (11, .let_), (20, .collation), (20, .session), (21, .collation), (21, .session), (22, .arrayFilters), (22, .collation), (22, .hint), (22, .let_), (23, .arrayFilters), (23, .collation), (23, .hint), (23, .let_), (24, .arrayFilters), (24, .collation), (24, .hint), (24, .let_), (34, .arrayFilters), (34, .collation), (34, .let_), (34, .session)]
-
-/-- known findings: options that still raise after ignore_feature: Collection.aggregate(session), Database.create_collection(array_filters), Database.create_collection(collation), Database.create_collection(let), Database.create_collection(session), Database.dereference(session), Database.drop_collection(session), Database.list_collection_names(session) -/
-def knownOptOutIneffective : List (Nat × Opt) := [(8, .session), (35, .arrayFilters), (35, .collation), (35, .let_), (35, .session), (36, .session), (37, .session), (38, .session)]
+/-- known findings: options dropped silently (no opt-out given): Collection.find(collation) -/
+def knownSilent : List (Nat × Opt) := [(20, .collation)]
 
 /-- both options present: ⟨mid, a, b, write, a opted out, observed⟩ (b is never opted out) -/
 def optionPairs_0 : List OptPair := [
@@ -264,7 +261,7 @@ def optionPairs_0 : List OptPair := [
   ⟨2, .collation, .hint, true, false, .raisesNotImplemented⟩,
   ⟨2, .collation, .hint, true, true, .raisesNotImplemented⟩,
   ⟨2, .arrayFilters, .collation, true, false, .raisesNotImplemented⟩,
-  ⟨2, .arrayFilters, .collation, true, true, .accepted⟩,
+  ⟨2, .arrayFilters, .collation, true, true, .raisesNotImplemented⟩,
   ⟨2, .arrayFilters, .hint, true, false, .raisesNotImplemented⟩,
   ⟨2, .arrayFilters, .hint, true, true, .raisesNotImplemented⟩,
   ⟨2, .hint, .collation, true, false, .raisesNotImplemented⟩,
@@ -312,35 +309,35 @@ def optionPairs_0 : List OptPair := [
   ⟨8, .session, .let_, false, false, .raisesNotImplemented⟩,
   ⟨8, .session, .let_, false, true, .raisesNotImplemented⟩,
   ⟨8, .session, .hint, false, false, .raisesNotImplemented⟩,
-  ⟨8, .session, .hint, false, true, .raisesNotImplemented⟩,
+  ⟨8, .session, .hint, false, true, .accepted⟩,
   ⟨8, .collation, .session, false, false, .raisesNotImplemented⟩,
   ⟨8, .collation, .session, false, true, .raisesNotImplemented⟩,
-  ⟨8, .collation, .arrayFilters, false, false, .accepted⟩,
-  ⟨8, .collation, .arrayFilters, false, true, .accepted⟩,
-  ⟨8, .collation, .let_, false, false, .accepted⟩,
-  ⟨8, .collation, .let_, false, true, .accepted⟩,
-  ⟨8, .collation, .hint, false, false, .accepted⟩,
+  ⟨8, .collation, .arrayFilters, false, false, .raisesNotImplemented⟩,
+  ⟨8, .collation, .arrayFilters, false, true, .raisesNotImplemented⟩,
+  ⟨8, .collation, .let_, false, false, .raisesNotImplemented⟩,
+  ⟨8, .collation, .let_, false, true, .raisesNotImplemented⟩,
+  ⟨8, .collation, .hint, false, false, .raisesNotImplemented⟩,
   ⟨8, .collation, .hint, false, true, .accepted⟩,
   ⟨8, .arrayFilters, .session, false, false, .raisesNotImplemented⟩,
   ⟨8, .arrayFilters, .session, false, true, .raisesNotImplemented⟩,
-  ⟨8, .arrayFilters, .collation, false, false, .accepted⟩,
-  ⟨8, .arrayFilters, .collation, false, true, .accepted⟩,
-  ⟨8, .arrayFilters, .let_, false, false, .accepted⟩,
-  ⟨8, .arrayFilters, .let_, false, true, .accepted⟩,
-  ⟨8, .arrayFilters, .hint, false, false, .accepted⟩,
+  ⟨8, .arrayFilters, .collation, false, false, .raisesNotImplemented⟩,
+  ⟨8, .arrayFilters, .collation, false, true, .raisesNotImplemented⟩,
+  ⟨8, .arrayFilters, .let_, false, false, .raisesNotImplemented⟩,
+  ⟨8, .arrayFilters, .let_, false, true, .raisesNotImplemented⟩,
+  ⟨8, .arrayFilters, .hint, false, false, .raisesNotImplemented⟩,
   ⟨8, .arrayFilters, .hint, false, true, .accepted⟩,
   ⟨8, .let_, .session, false, false, .raisesNotImplemented⟩,
   ⟨8, .let_, .session, false, true, .raisesNotImplemented⟩,
-  ⟨8, .let_, .collation, false, false, .accepted⟩,
-  ⟨8, .let_, .collation, false, true, .accepted⟩,
-  ⟨8, .let_, .arrayFilters, false, false, .accepted⟩,
-  ⟨8, .let_, .arrayFilters, false, true, .accepted⟩,
-  ⟨8, .let_, .hint, false, false, .accepted⟩,
+  ⟨8, .let_, .collation, false, false, .raisesNotImplemented⟩,
+  ⟨8, .let_, .collation, false, true, .raisesNotImplemented⟩,
+  ⟨8, .let_, .arrayFilters, false, false, .raisesNotImplemented⟩,
+  ⟨8, .let_, .arrayFilters, false, true, .raisesNotImplemented⟩,
+  ⟨8, .let_, .hint, false, false, .raisesNotImplemented⟩,
   ⟨8, .let_, .hint, false, true, .accepted⟩,
   ⟨8, .hint, .session, false, false, .raisesNotImplemented⟩,
-  ⟨8, .hint, .collation, false, false, .accepted⟩,
-  ⟨8, .hint, .arrayFilters, false, false, .accepted⟩,
-  ⟨8, .hint, .let_, false, false, .accepted⟩,
+  ⟨8, .hint, .collation, false, false, .raisesNotImplemented⟩,
+  ⟨8, .hint, .arrayFilters, false, false, .raisesNotImplemented⟩,
+  ⟨8, .hint, .let_, false, false, .raisesNotImplemented⟩,
   ⟨10, .session, .collation, false, false, .raisesNotImplemented⟩,
   ⟨10, .session, .collation, false, true, .raisesNotImplemented⟩,
   ⟨10, .session, .arrayFilters, false, false, .raisesNotImplemented⟩,
@@ -378,43 +375,43 @@ def optionPairs_0 : List OptPair := [
   ⟨10, .hint, .arrayFilters, false, false, .raisesOther⟩,
   ⟨10, .hint, .let_, false, false, .raisesOther⟩,
   ⟨11, .session, .collation, false, false, .raisesNotImplemented⟩,
-  ⟨11, .session, .collation, false, true, .accepted⟩,
+  ⟨11, .session, .collation, false, true, .raisesNotImplemented⟩,
   ⟨11, .session, .arrayFilters, false, false, .raisesNotImplemented⟩,
-  ⟨11, .session, .arrayFilters, false, true, .accepted⟩,
+  ⟨11, .session, .arrayFilters, false, true, .raisesNotImplemented⟩,
   ⟨11, .session, .let_, false, false, .raisesNotImplemented⟩,
-  ⟨11, .session, .let_, false, true, .accepted⟩,
+  ⟨11, .session, .let_, false, true, .raisesNotImplemented⟩,
   ⟨11, .session, .hint, false, false, .raisesNotImplemented⟩,
   ⟨11, .session, .hint, false, true, .accepted⟩,
   ⟨11, .collation, .session, false, false, .raisesNotImplemented⟩,
   ⟨11, .collation, .session, false, true, .raisesNotImplemented⟩,
-  ⟨11, .collation, .arrayFilters, false, false, .accepted⟩,
-  ⟨11, .collation, .arrayFilters, false, true, .accepted⟩,
-  ⟨11, .collation, .let_, false, false, .accepted⟩,
-  ⟨11, .collation, .let_, false, true, .accepted⟩,
-  ⟨11, .collation, .hint, false, false, .accepted⟩,
+  ⟨11, .collation, .arrayFilters, false, false, .raisesNotImplemented⟩,
+  ⟨11, .collation, .arrayFilters, false, true, .raisesNotImplemented⟩,
+  ⟨11, .collation, .let_, false, false, .raisesNotImplemented⟩,
+  ⟨11, .collation, .let_, false, true, .raisesNotImplemented⟩,
+  ⟨11, .collation, .hint, false, false, .raisesNotImplemented⟩,
   ⟨11, .collation, .hint, false, true, .accepted⟩,
   ⟨11, .arrayFilters, .session, false, false, .raisesNotImplemented⟩,
   ⟨11, .arrayFilters, .session, false, true, .raisesNotImplemented⟩,
-  ⟨11, .arrayFilters, .collation, false, false, .accepted⟩,
-  ⟨11, .arrayFilters, .collation, false, true, .accepted⟩,
-  ⟨11, .arrayFilters, .let_, false, false, .accepted⟩,
-  ⟨11, .arrayFilters, .let_, false, true, .accepted⟩,
-  ⟨11, .arrayFilters, .hint, false, false, .accepted⟩,
+  ⟨11, .arrayFilters, .collation, false, false, .raisesNotImplemented⟩,
+  ⟨11, .arrayFilters, .collation, false, true, .raisesNotImplemented⟩,
+  ⟨11, .arrayFilters, .let_, false, false, .raisesNotImplemented⟩,
+  ⟨11, .arrayFilters, .let_, false, true, .raisesNotImplemented⟩,
+  ⟨11, .arrayFilters, .hint, false, false, .raisesNotImplemented⟩,
   ⟨11, .arrayFilters, .hint, false, true, .accepted⟩,
   ⟨11, .let_, .session, false, false, .raisesNotImplemented⟩,
   ⟨11, .let_, .session, false, true, .raisesNotImplemented⟩]
 
 def optionPairs_1 : List OptPair := [
-  ⟨11, .let_, .collation, false, false, .accepted⟩,
-  ⟨11, .let_, .collation, false, true, .accepted⟩,
-  ⟨11, .let_, .arrayFilters, false, false, .accepted⟩,
-  ⟨11, .let_, .arrayFilters, false, true, .accepted⟩,
-  ⟨11, .let_, .hint, false, false, .accepted⟩,
+  ⟨11, .let_, .collation, false, false, .raisesNotImplemented⟩,
+  ⟨11, .let_, .collation, false, true, .raisesNotImplemented⟩,
+  ⟨11, .let_, .arrayFilters, false, false, .raisesNotImplemented⟩,
+  ⟨11, .let_, .arrayFilters, false, true, .raisesNotImplemented⟩,
+  ⟨11, .let_, .hint, false, false, .raisesNotImplemented⟩,
   ⟨11, .let_, .hint, false, true, .accepted⟩,
   ⟨11, .hint, .session, false, false, .raisesNotImplemented⟩,
-  ⟨11, .hint, .collation, false, false, .accepted⟩,
-  ⟨11, .hint, .arrayFilters, false, false, .accepted⟩,
-  ⟨11, .hint, .let_, false, false, .accepted⟩,
+  ⟨11, .hint, .collation, false, false, .raisesNotImplemented⟩,
+  ⟨11, .hint, .arrayFilters, false, false, .raisesNotImplemented⟩,
+  ⟨11, .hint, .let_, false, false, .raisesNotImplemented⟩,
   ⟨13, .session, .collation, true, false, .raisesNotImplemented⟩,
   ⟨13, .session, .collation, true, true, .raisesNotImplemented⟩,
   ⟨13, .session, .hint, true, false, .raisesNotImplemented⟩,
@@ -471,188 +468,188 @@ def optionPairs_1 : List OptPair := [
   ⟨19, .hint, .collation, false, false, .raisesOther⟩,
   ⟨19, .hint, .arrayFilters, false, false, .raisesOther⟩,
   ⟨19, .hint, .let_, false, false, .raisesOther⟩,
-  ⟨20, .session, .collation, false, false, .accepted⟩,
+  ⟨20, .session, .collation, false, false, .raisesNotImplemented⟩,
   ⟨20, .session, .collation, false, true, .accepted⟩,
-  ⟨20, .session, .arrayFilters, false, false, .raisesOther⟩,
+  ⟨20, .session, .arrayFilters, false, false, .raisesNotImplemented⟩,
   ⟨20, .session, .arrayFilters, false, true, .raisesOther⟩,
-  ⟨20, .session, .let_, false, false, .raisesOther⟩,
+  ⟨20, .session, .let_, false, false, .raisesNotImplemented⟩,
   ⟨20, .session, .let_, false, true, .raisesOther⟩,
-  ⟨20, .session, .hint, false, false, .raisesOther⟩,
+  ⟨20, .session, .hint, false, false, .raisesNotImplemented⟩,
   ⟨20, .session, .hint, false, true, .raisesOther⟩,
-  ⟨20, .collation, .session, false, false, .accepted⟩,
-  ⟨20, .collation, .session, false, true, .accepted⟩,
+  ⟨20, .collation, .session, false, false, .raisesNotImplemented⟩,
+  ⟨20, .collation, .session, false, true, .raisesNotImplemented⟩,
   ⟨20, .collation, .arrayFilters, false, false, .raisesOther⟩,
   ⟨20, .collation, .arrayFilters, false, true, .raisesOther⟩,
   ⟨20, .collation, .let_, false, false, .raisesOther⟩,
   ⟨20, .collation, .let_, false, true, .raisesOther⟩,
   ⟨20, .collation, .hint, false, false, .raisesOther⟩,
   ⟨20, .collation, .hint, false, true, .raisesOther⟩,
-  ⟨20, .arrayFilters, .session, false, false, .raisesOther⟩,
-  ⟨20, .arrayFilters, .session, false, true, .raisesOther⟩,
+  ⟨20, .arrayFilters, .session, false, false, .raisesNotImplemented⟩,
+  ⟨20, .arrayFilters, .session, false, true, .raisesNotImplemented⟩,
   ⟨20, .arrayFilters, .collation, false, false, .raisesOther⟩,
   ⟨20, .arrayFilters, .collation, false, true, .raisesOther⟩,
   ⟨20, .arrayFilters, .let_, false, false, .raisesOther⟩,
   ⟨20, .arrayFilters, .let_, false, true, .raisesOther⟩,
   ⟨20, .arrayFilters, .hint, false, false, .raisesOther⟩,
   ⟨20, .arrayFilters, .hint, false, true, .raisesOther⟩,
-  ⟨20, .let_, .session, false, false, .raisesOther⟩,
-  ⟨20, .let_, .session, false, true, .raisesOther⟩,
+  ⟨20, .let_, .session, false, false, .raisesNotImplemented⟩,
+  ⟨20, .let_, .session, false, true, .raisesNotImplemented⟩,
   ⟨20, .let_, .collation, false, false, .raisesOther⟩,
   ⟨20, .let_, .collation, false, true, .raisesOther⟩,
   ⟨20, .let_, .arrayFilters, false, false, .raisesOther⟩,
   ⟨20, .let_, .arrayFilters, false, true, .raisesOther⟩,
   ⟨20, .let_, .hint, false, false, .raisesOther⟩,
   ⟨20, .let_, .hint, false, true, .raisesOther⟩,
-  ⟨20, .hint, .session, false, false, .raisesOther⟩,
+  ⟨20, .hint, .session, false, false, .raisesNotImplemented⟩,
   ⟨20, .hint, .collation, false, false, .raisesOther⟩,
   ⟨20, .hint, .arrayFilters, false, false, .raisesOther⟩,
   ⟨20, .hint, .let_, false, false, .raisesOther⟩,
-  ⟨21, .session, .collation, false, false, .accepted⟩,
-  ⟨21, .session, .collation, false, true, .accepted⟩,
-  ⟨21, .session, .arrayFilters, false, false, .raisesOther⟩,
+  ⟨21, .session, .collation, false, false, .raisesNotImplemented⟩,
+  ⟨21, .session, .collation, false, true, .raisesNotImplemented⟩,
+  ⟨21, .session, .arrayFilters, false, false, .raisesNotImplemented⟩,
   ⟨21, .session, .arrayFilters, false, true, .raisesOther⟩,
-  ⟨21, .session, .let_, false, false, .raisesOther⟩,
+  ⟨21, .session, .let_, false, false, .raisesNotImplemented⟩,
   ⟨21, .session, .let_, false, true, .raisesOther⟩,
-  ⟨21, .session, .hint, false, false, .raisesOther⟩,
+  ⟨21, .session, .hint, false, false, .raisesNotImplemented⟩,
   ⟨21, .session, .hint, false, true, .raisesOther⟩,
-  ⟨21, .collation, .session, false, false, .accepted⟩,
-  ⟨21, .collation, .session, false, true, .accepted⟩,
-  ⟨21, .collation, .arrayFilters, false, false, .raisesOther⟩,
+  ⟨21, .collation, .session, false, false, .raisesNotImplemented⟩,
+  ⟨21, .collation, .session, false, true, .raisesNotImplemented⟩,
+  ⟨21, .collation, .arrayFilters, false, false, .raisesNotImplemented⟩,
   ⟨21, .collation, .arrayFilters, false, true, .raisesOther⟩,
-  ⟨21, .collation, .let_, false, false, .raisesOther⟩,
+  ⟨21, .collation, .let_, false, false, .raisesNotImplemented⟩,
   ⟨21, .collation, .let_, false, true, .raisesOther⟩,
-  ⟨21, .collation, .hint, false, false, .raisesOther⟩,
+  ⟨21, .collation, .hint, false, false, .raisesNotImplemented⟩,
   ⟨21, .collation, .hint, false, true, .raisesOther⟩,
-  ⟨21, .arrayFilters, .session, false, false, .raisesOther⟩,
-  ⟨21, .arrayFilters, .session, false, true, .raisesOther⟩,
-  ⟨21, .arrayFilters, .collation, false, false, .raisesOther⟩,
-  ⟨21, .arrayFilters, .collation, false, true, .raisesOther⟩,
+  ⟨21, .arrayFilters, .session, false, false, .raisesNotImplemented⟩,
+  ⟨21, .arrayFilters, .session, false, true, .raisesNotImplemented⟩,
+  ⟨21, .arrayFilters, .collation, false, false, .raisesNotImplemented⟩,
+  ⟨21, .arrayFilters, .collation, false, true, .raisesNotImplemented⟩,
   ⟨21, .arrayFilters, .let_, false, false, .raisesOther⟩,
   ⟨21, .arrayFilters, .let_, false, true, .raisesOther⟩,
   ⟨21, .arrayFilters, .hint, false, false, .raisesOther⟩,
   ⟨21, .arrayFilters, .hint, false, true, .raisesOther⟩,
-  ⟨21, .let_, .session, false, false, .raisesOther⟩,
-  ⟨21, .let_, .session, false, true, .raisesOther⟩,
-  ⟨21, .let_, .collation, false, false, .raisesOther⟩,
-  ⟨21, .let_, .collation, false, true, .raisesOther⟩,
+  ⟨21, .let_, .session, false, false, .raisesNotImplemented⟩,
+  ⟨21, .let_, .session, false, true, .raisesNotImplemented⟩,
+  ⟨21, .let_, .collation, false, false, .raisesNotImplemented⟩,
+  ⟨21, .let_, .collation, false, true, .raisesNotImplemented⟩,
   ⟨21, .let_, .arrayFilters, false, false, .raisesOther⟩,
   ⟨21, .let_, .arrayFilters, false, true, .raisesOther⟩,
   ⟨21, .let_, .hint, false, false, .raisesOther⟩,
   ⟨21, .let_, .hint, false, true, .raisesOther⟩,
-  ⟨21, .hint, .session, false, false, .raisesOther⟩,
-  ⟨21, .hint, .collation, false, false, .raisesOther⟩,
+  ⟨21, .hint, .session, false, false, .raisesNotImplemented⟩,
+  ⟨21, .hint, .collation, false, false, .raisesNotImplemented⟩,
   ⟨21, .hint, .arrayFilters, false, false, .raisesOther⟩,
   ⟨21, .hint, .let_, false, false, .raisesOther⟩,
   ⟨22, .session, .collation, true, false, .raisesNotImplemented⟩,
-  ⟨22, .session, .collation, true, true, .accepted⟩,
+  ⟨22, .session, .collation, true, true, .raisesNotImplemented⟩,
   ⟨22, .session, .arrayFilters, true, false, .raisesNotImplemented⟩,
-  ⟨22, .session, .arrayFilters, true, true, .accepted⟩,
+  ⟨22, .session, .arrayFilters, true, true, .raisesNotImplemented⟩,
   ⟨22, .session, .let_, true, false, .raisesNotImplemented⟩,
-  ⟨22, .session, .let_, true, true, .accepted⟩,
+  ⟨22, .session, .let_, true, true, .raisesNotImplemented⟩,
   ⟨22, .session, .hint, true, false, .raisesNotImplemented⟩,
-  ⟨22, .session, .hint, true, true, .accepted⟩,
+  ⟨22, .session, .hint, true, true, .raisesNotImplemented⟩,
   ⟨22, .collation, .session, true, false, .raisesNotImplemented⟩,
   ⟨22, .collation, .session, true, true, .raisesNotImplemented⟩,
-  ⟨22, .collation, .arrayFilters, true, false, .accepted⟩,
-  ⟨22, .collation, .arrayFilters, true, true, .accepted⟩]
+  ⟨22, .collation, .arrayFilters, true, false, .raisesNotImplemented⟩,
+  ⟨22, .collation, .arrayFilters, true, true, .raisesNotImplemented⟩]
 
 def optionPairs_2 : List OptPair := [
-  ⟨22, .collation, .let_, true, false, .accepted⟩,
-  ⟨22, .collation, .let_, true, true, .accepted⟩,
-  ⟨22, .collation, .hint, true, false, .accepted⟩,
-  ⟨22, .collation, .hint, true, true, .accepted⟩,
+  ⟨22, .collation, .let_, true, false, .raisesNotImplemented⟩,
+  ⟨22, .collation, .let_, true, true, .raisesNotImplemented⟩,
+  ⟨22, .collation, .hint, true, false, .raisesNotImplemented⟩,
+  ⟨22, .collation, .hint, true, true, .raisesNotImplemented⟩,
   ⟨22, .arrayFilters, .session, true, false, .raisesNotImplemented⟩,
   ⟨22, .arrayFilters, .session, true, true, .raisesNotImplemented⟩,
-  ⟨22, .arrayFilters, .collation, true, false, .accepted⟩,
-  ⟨22, .arrayFilters, .collation, true, true, .accepted⟩,
-  ⟨22, .arrayFilters, .let_, true, false, .accepted⟩,
-  ⟨22, .arrayFilters, .let_, true, true, .accepted⟩,
-  ⟨22, .arrayFilters, .hint, true, false, .accepted⟩,
-  ⟨22, .arrayFilters, .hint, true, true, .accepted⟩,
+  ⟨22, .arrayFilters, .collation, true, false, .raisesNotImplemented⟩,
+  ⟨22, .arrayFilters, .collation, true, true, .raisesNotImplemented⟩,
+  ⟨22, .arrayFilters, .let_, true, false, .raisesNotImplemented⟩,
+  ⟨22, .arrayFilters, .let_, true, true, .raisesNotImplemented⟩,
+  ⟨22, .arrayFilters, .hint, true, false, .raisesNotImplemented⟩,
+  ⟨22, .arrayFilters, .hint, true, true, .raisesNotImplemented⟩,
   ⟨22, .let_, .session, true, false, .raisesNotImplemented⟩,
   ⟨22, .let_, .session, true, true, .raisesNotImplemented⟩,
-  ⟨22, .let_, .collation, true, false, .accepted⟩,
-  ⟨22, .let_, .collation, true, true, .accepted⟩,
-  ⟨22, .let_, .arrayFilters, true, false, .accepted⟩,
-  ⟨22, .let_, .arrayFilters, true, true, .accepted⟩,
-  ⟨22, .let_, .hint, true, false, .accepted⟩,
-  ⟨22, .let_, .hint, true, true, .accepted⟩,
+  ⟨22, .let_, .collation, true, false, .raisesNotImplemented⟩,
+  ⟨22, .let_, .collation, true, true, .raisesNotImplemented⟩,
+  ⟨22, .let_, .arrayFilters, true, false, .raisesNotImplemented⟩,
+  ⟨22, .let_, .arrayFilters, true, true, .raisesNotImplemented⟩,
+  ⟨22, .let_, .hint, true, false, .raisesNotImplemented⟩,
+  ⟨22, .let_, .hint, true, true, .raisesNotImplemented⟩,
   ⟨22, .hint, .session, true, false, .raisesNotImplemented⟩,
-  ⟨22, .hint, .collation, true, false, .accepted⟩,
-  ⟨22, .hint, .arrayFilters, true, false, .accepted⟩,
-  ⟨22, .hint, .let_, true, false, .accepted⟩,
+  ⟨22, .hint, .collation, true, false, .raisesNotImplemented⟩,
+  ⟨22, .hint, .arrayFilters, true, false, .raisesNotImplemented⟩,
+  ⟨22, .hint, .let_, true, false, .raisesNotImplemented⟩,
   ⟨23, .session, .collation, true, false, .raisesNotImplemented⟩,
-  ⟨23, .session, .collation, true, true, .accepted⟩,
+  ⟨23, .session, .collation, true, true, .raisesNotImplemented⟩,
   ⟨23, .session, .arrayFilters, true, false, .raisesNotImplemented⟩,
-  ⟨23, .session, .arrayFilters, true, true, .accepted⟩,
+  ⟨23, .session, .arrayFilters, true, true, .raisesNotImplemented⟩,
   ⟨23, .session, .let_, true, false, .raisesNotImplemented⟩,
-  ⟨23, .session, .let_, true, true, .accepted⟩,
+  ⟨23, .session, .let_, true, true, .raisesNotImplemented⟩,
   ⟨23, .session, .hint, true, false, .raisesNotImplemented⟩,
-  ⟨23, .session, .hint, true, true, .accepted⟩,
+  ⟨23, .session, .hint, true, true, .raisesNotImplemented⟩,
   ⟨23, .collation, .session, true, false, .raisesNotImplemented⟩,
   ⟨23, .collation, .session, true, true, .raisesNotImplemented⟩,
-  ⟨23, .collation, .arrayFilters, true, false, .accepted⟩,
-  ⟨23, .collation, .arrayFilters, true, true, .accepted⟩,
-  ⟨23, .collation, .let_, true, false, .accepted⟩,
-  ⟨23, .collation, .let_, true, true, .accepted⟩,
-  ⟨23, .collation, .hint, true, false, .accepted⟩,
-  ⟨23, .collation, .hint, true, true, .accepted⟩,
+  ⟨23, .collation, .arrayFilters, true, false, .raisesNotImplemented⟩,
+  ⟨23, .collation, .arrayFilters, true, true, .raisesNotImplemented⟩,
+  ⟨23, .collation, .let_, true, false, .raisesNotImplemented⟩,
+  ⟨23, .collation, .let_, true, true, .raisesNotImplemented⟩,
+  ⟨23, .collation, .hint, true, false, .raisesNotImplemented⟩,
+  ⟨23, .collation, .hint, true, true, .raisesNotImplemented⟩,
   ⟨23, .arrayFilters, .session, true, false, .raisesNotImplemented⟩,
   ⟨23, .arrayFilters, .session, true, true, .raisesNotImplemented⟩,
-  ⟨23, .arrayFilters, .collation, true, false, .accepted⟩,
-  ⟨23, .arrayFilters, .collation, true, true, .accepted⟩,
-  ⟨23, .arrayFilters, .let_, true, false, .accepted⟩,
-  ⟨23, .arrayFilters, .let_, true, true, .accepted⟩,
-  ⟨23, .arrayFilters, .hint, true, false, .accepted⟩,
-  ⟨23, .arrayFilters, .hint, true, true, .accepted⟩,
+  ⟨23, .arrayFilters, .collation, true, false, .raisesNotImplemented⟩,
+  ⟨23, .arrayFilters, .collation, true, true, .raisesNotImplemented⟩,
+  ⟨23, .arrayFilters, .let_, true, false, .raisesNotImplemented⟩,
+  ⟨23, .arrayFilters, .let_, true, true, .raisesNotImplemented⟩,
+  ⟨23, .arrayFilters, .hint, true, false, .raisesNotImplemented⟩,
+  ⟨23, .arrayFilters, .hint, true, true, .raisesNotImplemented⟩,
   ⟨23, .let_, .session, true, false, .raisesNotImplemented⟩,
   ⟨23, .let_, .session, true, true, .raisesNotImplemented⟩,
-  ⟨23, .let_, .collation, true, false, .accepted⟩,
-  ⟨23, .let_, .collation, true, true, .accepted⟩,
-  ⟨23, .let_, .arrayFilters, true, false, .accepted⟩,
-  ⟨23, .let_, .arrayFilters, true, true, .accepted⟩,
-  ⟨23, .let_, .hint, true, false, .accepted⟩,
-  ⟨23, .let_, .hint, true, true, .accepted⟩,
+  ⟨23, .let_, .collation, true, false, .raisesNotImplemented⟩,
+  ⟨23, .let_, .collation, true, true, .raisesNotImplemented⟩,
+  ⟨23, .let_, .arrayFilters, true, false, .raisesNotImplemented⟩,
+  ⟨23, .let_, .arrayFilters, true, true, .raisesNotImplemented⟩,
+  ⟨23, .let_, .hint, true, false, .raisesNotImplemented⟩,
+  ⟨23, .let_, .hint, true, true, .raisesNotImplemented⟩,
   ⟨23, .hint, .session, true, false, .raisesNotImplemented⟩,
-  ⟨23, .hint, .collation, true, false, .accepted⟩,
-  ⟨23, .hint, .arrayFilters, true, false, .accepted⟩,
-  ⟨23, .hint, .let_, true, false, .accepted⟩,
+  ⟨23, .hint, .collation, true, false, .raisesNotImplemented⟩,
+  ⟨23, .hint, .arrayFilters, true, false, .raisesNotImplemented⟩,
+  ⟨23, .hint, .let_, true, false, .raisesNotImplemented⟩,
   ⟨24, .session, .collation, true, false, .raisesNotImplemented⟩,
-  ⟨24, .session, .collation, true, true, .accepted⟩,
+  ⟨24, .session, .collation, true, true, .raisesNotImplemented⟩,
   ⟨24, .session, .arrayFilters, true, false, .raisesNotImplemented⟩,
-  ⟨24, .session, .arrayFilters, true, true, .accepted⟩,
+  ⟨24, .session, .arrayFilters, true, true, .raisesNotImplemented⟩,
   ⟨24, .session, .let_, true, false, .raisesNotImplemented⟩,
-  ⟨24, .session, .let_, true, true, .accepted⟩,
+  ⟨24, .session, .let_, true, true, .raisesNotImplemented⟩,
   ⟨24, .session, .hint, true, false, .raisesNotImplemented⟩,
-  ⟨24, .session, .hint, true, true, .accepted⟩,
+  ⟨24, .session, .hint, true, true, .raisesNotImplemented⟩,
   ⟨24, .collation, .session, true, false, .raisesNotImplemented⟩,
   ⟨24, .collation, .session, true, true, .raisesNotImplemented⟩,
-  ⟨24, .collation, .arrayFilters, true, false, .accepted⟩,
-  ⟨24, .collation, .arrayFilters, true, true, .accepted⟩,
-  ⟨24, .collation, .let_, true, false, .accepted⟩,
-  ⟨24, .collation, .let_, true, true, .accepted⟩,
-  ⟨24, .collation, .hint, true, false, .accepted⟩,
-  ⟨24, .collation, .hint, true, true, .accepted⟩,
+  ⟨24, .collation, .arrayFilters, true, false, .raisesNotImplemented⟩,
+  ⟨24, .collation, .arrayFilters, true, true, .raisesNotImplemented⟩,
+  ⟨24, .collation, .let_, true, false, .raisesNotImplemented⟩,
+  ⟨24, .collation, .let_, true, true, .raisesNotImplemented⟩,
+  ⟨24, .collation, .hint, true, false, .raisesNotImplemented⟩,
+  ⟨24, .collation, .hint, true, true, .raisesNotImplemented⟩,
   ⟨24, .arrayFilters, .session, true, false, .raisesNotImplemented⟩,
   ⟨24, .arrayFilters, .session, true, true, .raisesNotImplemented⟩,
-  ⟨24, .arrayFilters, .collation, true, false, .accepted⟩,
-  ⟨24, .arrayFilters, .collation, true, true, .accepted⟩,
-  ⟨24, .arrayFilters, .let_, true, false, .accepted⟩,
-  ⟨24, .arrayFilters, .let_, true, true, .accepted⟩,
-  ⟨24, .arrayFilters, .hint, true, false, .accepted⟩,
-  ⟨24, .arrayFilters, .hint, true, true, .accepted⟩,
+  ⟨24, .arrayFilters, .collation, true, false, .raisesNotImplemented⟩,
+  ⟨24, .arrayFilters, .collation, true, true, .raisesNotImplemented⟩,
+  ⟨24, .arrayFilters, .let_, true, false, .raisesNotImplemented⟩,
+  ⟨24, .arrayFilters, .let_, true, true, .raisesNotImplemented⟩,
+  ⟨24, .arrayFilters, .hint, true, false, .raisesNotImplemented⟩,
+  ⟨24, .arrayFilters, .hint, true, true, .raisesNotImplemented⟩,
   ⟨24, .let_, .session, true, false, .raisesNotImplemented⟩,
   ⟨24, .let_, .session, true, true, .raisesNotImplemented⟩,
-  ⟨24, .let_, .collation, true, false, .accepted⟩,
-  ⟨24, .let_, .collation, true, true, .accepted⟩,
-  ⟨24, .let_, .arrayFilters, true, false, .accepted⟩,
-  ⟨24, .let_, .arrayFilters, true, true, .accepted⟩,
-  ⟨24, .let_, .hint, true, false, .accepted⟩,
-  ⟨24, .let_, .hint, true, true, .accepted⟩,
+  ⟨24, .let_, .collation, true, false, .raisesNotImplemented⟩,
+  ⟨24, .let_, .collation, true, true, .raisesNotImplemented⟩,
+  ⟨24, .let_, .arrayFilters, true, false, .raisesNotImplemented⟩,
+  ⟨24, .let_, .arrayFilters, true, true, .raisesNotImplemented⟩,
+  ⟨24, .let_, .hint, true, false, .raisesNotImplemented⟩,
+  ⟨24, .let_, .hint, true, true, .raisesNotImplemented⟩,
   ⟨24, .hint, .session, true, false, .raisesNotImplemented⟩,
-  ⟨24, .hint, .collation, true, false, .accepted⟩,
-  ⟨24, .hint, .arrayFilters, true, false, .accepted⟩,
-  ⟨24, .hint, .let_, true, false, .accepted⟩,
+  ⟨24, .hint, .collation, true, false, .raisesNotImplemented⟩,
+  ⟨24, .hint, .arrayFilters, true, false, .raisesNotImplemented⟩,
+  ⟨24, .hint, .let_, true, false, .raisesNotImplemented⟩,
   ⟨29, .session, .collation, false, false, .raisesNotImplemented⟩,
   ⟨29, .session, .collation, false, true, .raisesOther⟩,
   ⟨29, .session, .arrayFilters, false, false, .raisesNotImplemented⟩,
@@ -766,42 +763,42 @@ def optionPairs_3 : List OptPair := [
   ⟨32, .hint, .collation, true, false, .raisesNotImplemented⟩,
   ⟨32, .hint, .arrayFilters, true, false, .raisesNotImplemented⟩,
   ⟨32, .hint, .let_, true, false, .raisesNotImplemented⟩,
-  ⟨34, .session, .collation, false, false, .accepted⟩,
-  ⟨34, .session, .collation, false, true, .accepted⟩,
-  ⟨34, .session, .arrayFilters, false, false, .accepted⟩,
-  ⟨34, .session, .arrayFilters, false, true, .accepted⟩,
-  ⟨34, .session, .let_, false, false, .accepted⟩,
-  ⟨34, .session, .let_, false, true, .accepted⟩,
-  ⟨34, .session, .hint, false, false, .accepted⟩,
+  ⟨34, .session, .collation, false, false, .raisesNotImplemented⟩,
+  ⟨34, .session, .collation, false, true, .raisesNotImplemented⟩,
+  ⟨34, .session, .arrayFilters, false, false, .raisesNotImplemented⟩,
+  ⟨34, .session, .arrayFilters, false, true, .raisesNotImplemented⟩,
+  ⟨34, .session, .let_, false, false, .raisesNotImplemented⟩,
+  ⟨34, .session, .let_, false, true, .raisesNotImplemented⟩,
+  ⟨34, .session, .hint, false, false, .raisesNotImplemented⟩,
   ⟨34, .session, .hint, false, true, .accepted⟩,
-  ⟨34, .collation, .session, false, false, .accepted⟩,
-  ⟨34, .collation, .session, false, true, .accepted⟩,
-  ⟨34, .collation, .arrayFilters, false, false, .accepted⟩,
-  ⟨34, .collation, .arrayFilters, false, true, .accepted⟩,
-  ⟨34, .collation, .let_, false, false, .accepted⟩,
-  ⟨34, .collation, .let_, false, true, .accepted⟩,
-  ⟨34, .collation, .hint, false, false, .accepted⟩,
+  ⟨34, .collation, .session, false, false, .raisesNotImplemented⟩,
+  ⟨34, .collation, .session, false, true, .raisesNotImplemented⟩,
+  ⟨34, .collation, .arrayFilters, false, false, .raisesNotImplemented⟩,
+  ⟨34, .collation, .arrayFilters, false, true, .raisesNotImplemented⟩,
+  ⟨34, .collation, .let_, false, false, .raisesNotImplemented⟩,
+  ⟨34, .collation, .let_, false, true, .raisesNotImplemented⟩,
+  ⟨34, .collation, .hint, false, false, .raisesNotImplemented⟩,
   ⟨34, .collation, .hint, false, true, .accepted⟩,
-  ⟨34, .arrayFilters, .session, false, false, .accepted⟩,
-  ⟨34, .arrayFilters, .session, false, true, .accepted⟩,
-  ⟨34, .arrayFilters, .collation, false, false, .accepted⟩,
-  ⟨34, .arrayFilters, .collation, false, true, .accepted⟩,
-  ⟨34, .arrayFilters, .let_, false, false, .accepted⟩,
-  ⟨34, .arrayFilters, .let_, false, true, .accepted⟩,
-  ⟨34, .arrayFilters, .hint, false, false, .accepted⟩,
+  ⟨34, .arrayFilters, .session, false, false, .raisesNotImplemented⟩,
+  ⟨34, .arrayFilters, .session, false, true, .raisesNotImplemented⟩,
+  ⟨34, .arrayFilters, .collation, false, false, .raisesNotImplemented⟩,
+  ⟨34, .arrayFilters, .collation, false, true, .raisesNotImplemented⟩,
+  ⟨34, .arrayFilters, .let_, false, false, .raisesNotImplemented⟩,
+  ⟨34, .arrayFilters, .let_, false, true, .raisesNotImplemented⟩,
+  ⟨34, .arrayFilters, .hint, false, false, .raisesNotImplemented⟩,
   ⟨34, .arrayFilters, .hint, false, true, .accepted⟩,
-  ⟨34, .let_, .session, false, false, .accepted⟩,
-  ⟨34, .let_, .session, false, true, .accepted⟩,
-  ⟨34, .let_, .collation, false, false, .accepted⟩,
-  ⟨34, .let_, .collation, false, true, .accepted⟩,
-  ⟨34, .let_, .arrayFilters, false, false, .accepted⟩,
-  ⟨34, .let_, .arrayFilters, false, true, .accepted⟩,
-  ⟨34, .let_, .hint, false, false, .accepted⟩,
+  ⟨34, .let_, .session, false, false, .raisesNotImplemented⟩,
+  ⟨34, .let_, .session, false, true, .raisesNotImplemented⟩,
+  ⟨34, .let_, .collation, false, false, .raisesNotImplemented⟩,
+  ⟨34, .let_, .collation, false, true, .raisesNotImplemented⟩,
+  ⟨34, .let_, .arrayFilters, false, false, .raisesNotImplemented⟩,
+  ⟨34, .let_, .arrayFilters, false, true, .raisesNotImplemented⟩,
+  ⟨34, .let_, .hint, false, false, .raisesNotImplemented⟩,
   ⟨34, .let_, .hint, false, true, .accepted⟩,
-  ⟨34, .hint, .session, false, false, .accepted⟩,
-  ⟨34, .hint, .collation, false, false, .accepted⟩,
-  ⟨34, .hint, .arrayFilters, false, false, .accepted⟩,
-  ⟨34, .hint, .let_, false, false, .accepted⟩,
+  ⟨34, .hint, .session, false, false, .raisesNotImplemented⟩,
+  ⟨34, .hint, .collation, false, false, .raisesNotImplemented⟩,
+  ⟨34, .hint, .arrayFilters, false, false, .raisesNotImplemented⟩,
+  ⟨34, .hint, .let_, false, false, .raisesNotImplemented⟩,
   ⟨35, .session, .collation, false, false, .raisesNotImplemented⟩,
   ⟨35, .session, .collation, false, true, .raisesNotImplemented⟩,
   ⟨35, .session, .arrayFilters, false, false, .raisesNotImplemented⟩,
